@@ -629,7 +629,7 @@ func (h *RealtimeHandler) HandleEntityComponentAdd(ctx context.Context, respond 
 		Data:                  req.Data,
 	}
 
-	if err := session.GetEntityComponents().Add(&entityComponent); err != nil {
+	if err := session.AddEntityComponent(&entityComponent); err != nil {
 		var errCode hagallpb.ErrorCode
 		switch errors.Type(err) {
 		case hwebsocket.ErrEntityComponentTypeAlreadyAdded:
